@@ -1,8 +1,9 @@
 //! Helper sub-commands run as child processes of monitors.
 
 /// Returns Some(exit code) when `cmd` is a helper.
-pub fn dispatch(cmd: &str, _args: &[String]) -> Option<i32> {
+pub fn dispatch(cmd: &str, args: &[String]) -> Option<i32> {
     match cmd {
+        "provider" => Some(crate::provider::standalone(args)),
         _ => None,
     }
 }
